@@ -183,6 +183,14 @@ def faults(m):
                     lambda port=port, t=later: port.withdraw_funds(t, -5.0), ValueError, True))
         out.append(('Portfolio.withdraw_funds(later dt, excess)',
                     lambda port=port, t=later, cash=cash: port.withdraw_funds(t, max(cash, 0.0) + 0.01), ValueError, True))
+        ahead = earlier.tz_convert('Asia/Tokyo')      # the same earlier instant; its wall-clock reading is LATER
+        out.append(('Portfolio.subscribe_funds(earlier dt, other zone)',
+                    lambda port=port, t=ahead: port.subscribe_funds(t, 10.0), ValueError, True))
+        out.append(('Portfolio.withdraw_funds(earlier dt, other zone)',
+                    lambda port=port, t=ahead: port.withdraw_funds(t, 0.01), ValueError, True))
+        out.append(('Portfolio.transact_asset(earlier dt, other zone)',
+                    lambda port=port, t=ahead: port.transact_asset(Transaction('A', 1, t, 10.0, 'bad', commission=0.5)),
+                    ValueError, True))
         out.append(('Portfolio.subscribe_funds(earlier dt)',
                     lambda port=port, t=earlier: port.subscribe_funds(t, 10.0), ValueError, True))
         out.append(('Portfolio.withdraw_funds(earlier dt)',
